@@ -4,6 +4,8 @@
 #include <osmium/builder/osm_object_builder.hpp>
 #include <osmium/memory/buffer.hpp>
 
+#include <osmium/io/detail/pbf_decoder.hpp>  // varint_range
+
 #include <protozero/pbf_message.hpp>
 
 #include <array>
@@ -180,6 +182,45 @@ namespace c02_positive {
         }
 
     };
+
+    // value taken from one packed range under the emptiness guard of its sibling          -> pbf-range-guard-tests-consumed-range
+    inline int64_t sum_uids(osmium::io::detail::varint_range& ids, osmium::io::detail::varint_range& uids,
+                            osmium::io::detail::varint_range& user_sids) {
+        int64_t sum = 0;
+        while (!ids.empty()) {
+            sum += ids.next_sint64();
+            if (!user_sids.empty()) {
+                sum += uids.next_sint32();
+            }
+        }
+        return sum;
+    }
+
+    class RefSink : public osmium::builder::WayNodeListBuilder {
+
+    public:
+
+        using osmium::builder::WayNodeListBuilder::WayNodeListBuilder;
+
+        void add_ref(int64_t ref, const osmium::Location& location) {
+            add_node_ref(ref, location);
+        }
+
+    };
+
+    // location declared outside the loop, only conditionally refreshed, used every iteration -> loop-state-fresh-per-iteration
+    inline void parse_refs(const char* s, const char* e, osmium::memory::Buffer& buffer) {
+        RefSink sink{buffer};
+        osmium::Location location;
+        while (s < e) {
+            const int64_t ref = *s++;
+            if (s < e && *s == 'x') {
+                ++s;
+                location.set_lon_partial(&s);
+            }
+            sink.add_ref(ref, location);
+        }
+    }
 
     inline void driver(const protozero::data_view& d, const std::array<unsigned char, 4>& b) {
         DecoderA a;
